@@ -4,14 +4,22 @@ sequences with faults, and a catalogue of library blocks for the checkIntegrity 
 import common
 from common import quiet
 
+ROUTE_OPS = ('WireVia', 'Wires')          # harness-level calls; expand() gives the primitive calls they must be equivalent to
 OPS = ('NewLogic', 'NewWire', 'NewBidir', 'AddIn', 'AddOut', 'AddInOut', 'Rename', 'Reparent', 'ReparentAndRename')
 UNKNOWN = -99          # an object reachable from the real state that the harness did not create
 
 
-def nm(k): return 'n%d' % k
+BUNDLE = 1000          # name codes >= BUNDLE stand for the members of a wires() bundle: code = BUNDLE * (prefix + 1) + index  <->  'n<prefix>_<index>'
+
+
+def nm(k):
+    if k >= BUNDLE: return 'n%d_%d' % (k // BUNDLE - 1, k % BUNDLE)
+    return 'n%d' % k
 def unnm(s):
-    try: return int(s[1:]) if s[:1] == 'n' else UNKNOWN
-    except ValueError: return UNKNOWN
+    if s[:1] != 'n': return UNKNOWN
+    a, sep, i = s[1:].partition('_')
+    if not a.isdigit() or (sep and not i.isdigit()): return UNKNOWN
+    return BUNDLE * (int(a) + 1) + int(i) if sep else int(a)
 
 
 def has_behaviour(o):
@@ -81,6 +89,20 @@ class World:
                     _, p, n, width = op
                     w = (py4hw.Wire if k == 'NewWire' else py4hw.BidirWire)(self.objs[p], nm(n), width)
                     self.wires.append(w)
+                elif k == 'WireVia':                      # the same creation through the factory method of the parent: parent.wire(name, width)
+                    _, p, n, width = op
+                    self.wires.append(self.objs[p].wire(nm(n), width))
+                elif k == 'Wires':                        # parent.wires(prefix, num, width): the bundle prefix_0 .. prefix_{num-1} in ONE call
+                    _, p, a, num, width = op
+                    par = self.objs[p]
+                    known = set(id(w) for w in self.wires)
+                    try:
+                        made = par.wires(nm(a), num, width)
+                    finally:                              # also after a failure: the members that exist now and did not before, in order
+                        for i in range(num):
+                            w = par._wires.get(nm(BUNDLE * (a + 1) + i))
+                            if w is not None and id(w) not in known:
+                                self.wires.append(w); known.add(id(w))
                 elif k in ('AddIn', 'AddOut', 'AddInOut'):
                     _, o, n, w = op
                     obj = self.objs[o]
@@ -228,6 +250,74 @@ def replay_ops(ops):
         r, txt = W.apply(op)
         rec.append((r, W.dump(), txt))
     return W, rec
+
+
+# ---------------------------------------------------------------- API routes: the factory methods must behave like the constructor calls they wrap
+def expand(op):
+    """primitive constructor calls a factory call stands for (executed until the first one that raises)"""
+    if op[0] == 'WireVia': return [('NewWire', op[1], op[2], op[3])]
+    if op[0] == 'Wires': return [('NewWire', op[1], BUNDLE * (op[2] + 1) + i, op[4]) for i in range(op[3])]
+    return [op]
+
+
+def tables(W):
+    """(parent index, name) -> identity of the wire / child the parent lists under that name"""
+    t = {}
+    for i, o in enumerate(W.objs):
+        for n, w in o._wires.items(): t[('wire', i, n)] = id(w)
+        for n, c in o.children.items(): t[('child', i, n)] = id(c)
+    return t
+
+
+def route_run(rng, n_ops, names=4):
+    """world A is built through the factory methods (parent.wire / parent.wires), world B through the plain constructor calls of expand();
+    B's sequence is judged against the Coq model and the Spec like every other sequence.  Returns (A, B, opsA, opsB, recB, problems):
+    problems = failures of the property seen on A directly ("the earlier wire stays in place": what a parent listed under a name before a call
+    that raised it still lists afterwards; after a call that did not raise nothing it listed before is replaced) or differences between the
+    object graphs of A and B."""
+    A, B = World(), World()
+    opsA, opsB, recB, problems = [], [], [], []
+    def do(op):
+        before = tables(A)
+        rA, tA = A.apply(op)
+        opsA.append(op)
+        rB = False
+        for q in expand(op):
+            rB, tB = B.apply(q)
+            opsB.append(q); recB.append((rB, B.dump(), tB))
+            if rB: break
+        after = tables(A)
+        moved = id(A.wires[op[1]]) if op[0] in ('Rename', 'Reparent', 'ReparentAndRename') and not rA else None      # a successful move leaves its OWN old slot
+        lost = sorted(k for k in before if after.get(k) != before[k] and before[k] != moved)
+        if lost:
+            problems.append({'what': 'a construction call %s entry(ies) its parent already listed: the earlier %s does not stay in place'
+                                     % ('that RAISED removed or replaced' if rA else 'replaced', lost[0][0]),
+                             'lost': [[k[0], k[1], k[2]] for k in lost], 'call': list(op), 'raised': rA, 'exception': tA, 'calls': [list(o) for o in opsA]})
+        elif rA != rB:
+            problems.append({'what': 'a factory call and the constructor calls it stands for disagree on raising', 'call': list(op), 'factory_raised': rA, 'exception': tA,
+                             'constructor_calls_raised': rB, 'calls': [list(o) for o in opsA], 'constructor_calls': [list(o) for o in opsB]})
+        elif A.dump() != B.dump():
+            problems.append({'what': 'the object graph built through the factory methods differs from the one built by the constructor calls they stand for',
+                             'call': list(op), 'raised': rA, 'calls': [list(o) for o in opsA], 'constructor_calls': [list(o) for o in opsB],
+                             'graph_factory': A.dump(), 'graph_constructors': B.dump()})
+        return rA
+    do(('NewLogic', None, 0, False))
+    while len(opsA) < n_ops and not problems:
+        x = rng.random(); no, nw = len(A.objs), len(A.wires)
+        if x < 0.12:
+            do(('NewLogic', rng.randrange(no), rng.randrange(names), rng.random() < 0.5, rng.randrange(30)))
+        elif x < 0.30 or nw == 0:
+            do(('WireVia' if rng.random() < 0.6 else 'NewWire', rng.randrange(no), rng.choice([rng.randrange(names), BUNDLE * (rng.randrange(names) + 1) + rng.randrange(3)]), rng.choice([1, 2, 8])))
+        elif x < 0.62:
+            do(('Wires', rng.randrange(no), rng.randrange(names), rng.randrange(0, 4), rng.choice([1, 4])))      # repeated prefixes collide with earlier bundles / members
+        elif x < 0.85:
+            kind = rng.choice(['AddIn', 'AddOut', 'AddOut'])
+            do((kind, rng.randrange(no), rng.randrange(4), rng.randrange(nw)))
+        else:
+            w = rng.randrange(nw)
+            if rng.random() < .5: do(('Rename', w, rng.choice([rng.randrange(names), BUNDLE * (rng.randrange(names) + 1) + rng.randrange(3)])))
+            else: do(('ReparentAndRename', w, rng.randrange(no), BUNDLE * (rng.randrange(names) + 1) + rng.randrange(3)))
+    return A, B, opsA, opsB, recB, problems
 
 
 # one directed scenario per fault kind (so every rejection path is exercised whatever the seed)
